@@ -57,10 +57,11 @@ def build(tier):
         u = unit_for(tt, pol); units.append(u)
         d = 1
         def kw(nx, ny, share=False):
-            bound = {"unwind": max(nx + ny, 2) + 1,
-                     "unwindset": "ps_nth.0:6,ps_count.0:7,ps_sat.0:6,ps_omega_reduced.0:6,ps_omega_reduced.1:6,ps_wf.0:6",   # the constant-bound loops of the spec functions
+            pm = min(4, max(nx * max(ny, 1), nx + ny, 1) + 1)     # most disjuncts any state can have (meet: nx*ny, join: nx+ny, add_disjunct: nx+1)
+            bound = {"unwind": max(nx + ny, 2) + 1, "ps_max": pm,
+                     "unwindset": "ps_nth.0:%d,ps_count.0:%d,ps_sat.0:%d,ps_omega_reduced.0:%d,ps_omega_reduced.1:%d,ps_wf.0:%d" % (pm + 2, pm + 3, pm + 2, pm + 2, pm + 2, pm + 2),   # the constant-bound loops of the spec functions
                      "note": "x has %d and y has %d disjuncts%s, space dimension %d; disjunct boxes (bounds, special/open bits, status flags), reduced flags and ghost point arbitrary; loops unwound with unwinding assertions" % (nx, ny, " (first ones sharing one representation)" if share else "", d)}
-            return dict(bounded=bound, timeout=3000, object_bits=11, defs={"BOX_D": d, "GHOST_RANGE": "((ex_t)%d)" % (1 << (u.defs["T_W"] + 1))}, split_post=False,
+            return dict(bounded=bound, timeout=3000, object_bits=11, defs={"BOX_D": d, "PS_MAX": pm, "GHOST_RANGE": "((ex_t)%d)" % (1 << (u.defs["T_W"] + 1))}, split_post=False,
                         stubs=["c12_ghost.c", "c17_ghost.c", "c09_ps.c"], harness_pre=setup(nx, ny, share), group="powerset %s %s" % (tt, pol), mem_gb=40)
         shapes1 = [(2, 0)] if tier == "quick" else [(0, 0), (1, 0), (2, 0)]
         for (nx, ny) in shapes1:
